@@ -149,7 +149,11 @@ async def next_step_settled(sim: SimRunner, world: World) -> bool:
         if sim.next_steps and sim.next_steps[0] == sim.progress.time:
             return True
         else:
-            await_time = sim.next_steps[0] if sim.next_steps else TieredTime(world.until) + sim.from_world_time
+            # Progress never exceeds until, so a scheduled step beyond the
+            # end of the simulation must not be awaited.
+            await_time = TieredTime(world.until) + sim.from_world_time
+            if sim.next_steps:
+                await_time = min(await_time, sim.next_steps[0])
             _, pending = await asyncio.wait(
                 [
                     asyncio.create_task(sim.progress.has_reached(await_time)),
